@@ -85,6 +85,30 @@ func removeNewDirs(fs afero.Fs, dir, root string) {
 	}
 }
 
+// removeAll is fs.RemoveAll(name), entry by entry: afero's MemMapFs takes name
+// as a string prefix and removes "abcd" (and everything below it) along with
+// "abc".
+func removeAll(fs afero.Fs, name string) error {
+	info, err := fs.Stat(name)
+	if os.IsNotExist(err) {
+		return nil
+	} else if err != nil {
+		return err
+	}
+	if info.IsDir() {
+		entries, err := afero.ReadDir(fs, name)
+		if err != nil {
+			return err
+		}
+		for _, entry := range entries {
+			if err := removeAll(fs, filepath.Join(name, entry.Name())); err != nil {
+				return err
+			}
+		}
+	}
+	return fs.Remove(name)
+}
+
 type readerWithCloser struct {
 	io.Reader
 	closer func() error
